@@ -1433,7 +1433,7 @@ func (in *Interp) call(fr *Frame, x *ssa.Call, mem *Mem) (res *Term, noReturn bo
 			return nil, false
 		}
 		if in.Pure(name) {
-			return Call(name, rt, args...), false
+			return FoldCall(Call(name, rt, args...)), false
 		}
 		return Atom(fmt.Sprintf("ext#%s#%s:%s", fr.ID, x.Name(), name), rt), false
 	}
